@@ -7,7 +7,7 @@ fn items_s(p: &lossy::Paragraph) -> String {
     p.iter().map(|(k, v)| format!("{}={}", hex(k), hex(v))).collect::<Vec<_>>().join(",")
 }
 fn doc_s(d: &lossy::Deb822) -> String {
-    d.iter().map(items_s).collect::<Vec<_>>().join(";")
+    d.iter().map(|p| format!("[{}]", items_s(p))).collect::<Vec<_>>().join("")
 }
 fn lossless_s(s: &str) -> String {
     match deb822_lossless::Deb822::from_str(s) {
